@@ -83,6 +83,10 @@ func projectRes(res string, k int) string {
 	return strings.Join(f, " ")
 }
 
+func cannotPay(detail string) bool {
+	return strings.Contains(detail, "insufficient funds") || strings.Contains(detail, "account not found") || strings.Contains(detail, "does not exist")
+}
+
 // isolationCheck re-executes the history once per tenant with the messages addressed to the other tenants removed
 // and compares, operation by operation, the answers and the tenant's projection of the state (C13).
 func isolationCheck(ops []string, full *monitor.Trace, engine string, br map[string]int) []monitor.Violation {
@@ -118,8 +122,10 @@ func isolationCheck(ops []string, full *monitor.Trace, engine string, br map[str
 		alone, _ := runHistory(kept, nil, engine)
 		for j, i := range idx {
 			fs, as := full.Steps[i], alone.Steps[j]
-			if fs.Res != as.Res && (strings.Contains(fs.Detail, "insufficient funds") || strings.Contains(as.Detail, "insufficient funds")) {
-				break // what an account can afford does depend on what else it paid for: not a tenant's view
+			if fs.Res != as.Res && (cannotPay(fs.Detail) || cannotPay(as.Detail)) {
+				// what an account can afford - or whether it exists yet - does depend on what else it paid for or was paid (a recipient of
+				// one tenant's payout depositing with another tenant): that is the account's affair, not a tenant's view
+				break
 			}
 			if projectRes(fs.Res, k) != projectRes(as.Res, k) {
 				return []monitor.Violation{{Property: "C13", Key: "isolation", Step: i,
